@@ -403,6 +403,8 @@ def run(ctx):
               real_calls=w.steps, solves=ad.solves, reference_solves=len(ad.ref), unconverged_skipped=ad.unconverged)
     if ad.unconverged:
         ctx.skip('solves that did not converge', ad.unconverged)
+    if len(ad.ref) < 3:     # vacuity guard: SweepEqualsFresh needs converged solves to speak about
+        raise MachineryError('only %d converged reference solves: SweepEqualsFresh was not exercised' % len(ad.ref))
     ctx.sample({'edge': res.records['EDGE'][len(res.records['EDGE']) // 2]})
     # (3) the composite life cycle: histories crossing edits, creation, the three ways of solving, calculate.* and user transforms
     from harness import lifecycle
